@@ -27,6 +27,86 @@ type RetAlt struct {
 
 func isBackEdge(p, b *ssa.BasicBlock) bool { return b.Dominates(p) }
 
+const maxUnroll = 64
+
+// loopDesc describes a natural loop. simple: the only way out is the header's own test (no
+// break, return or panic in the body), the shape of every counted `for`/`range` loop.
+type loopDesc struct {
+	header     *ssa.BasicBlock
+	body       *ssa.BasicBlock // the header's successor inside the loop
+	order      []*ssa.BasicBlock
+	in         map[*ssa.BasicBlock]bool
+	innerBlock map[*ssa.BasicBlock]bool // blocks of nested loops other than their headers
+	simple     bool
+}
+
+func loopDescs(fn *ssa.Function, order []*ssa.BasicBlock) map[*ssa.BasicBlock]*loopDesc {
+	out := map[*ssa.BasicBlock]*loopDesc{}
+	for _, h := range order {
+		var latches []*ssa.BasicBlock
+		for _, p := range h.Preds {
+			if isBackEdge(p, h) {
+				latches = append(latches, p)
+			}
+		}
+		if len(latches) == 0 {
+			continue
+		}
+		ld := &loopDesc{header: h, in: map[*ssa.BasicBlock]bool{h: true}, innerBlock: map[*ssa.BasicBlock]bool{}}
+		work := append([]*ssa.BasicBlock{}, latches...)
+		for len(work) > 0 {
+			b := work[len(work)-1]
+			work = work[:len(work)-1]
+			if ld.in[b] {
+				continue
+			}
+			ld.in[b] = true
+			work = append(work, b.Preds...)
+		}
+		for _, b := range order {
+			if ld.in[b] {
+				ld.order = append(ld.order, b)
+			}
+		}
+		ld.simple = len(ld.order) > 0 && ld.order[0] == h
+		iff, isIf := h.Instrs[len(h.Instrs)-1].(*ssa.If)
+		if !isIf || iff == nil || len(h.Succs) != 2 || ld.in[h.Succs[0]] == ld.in[h.Succs[1]] {
+			ld.simple = false
+		} else if ld.in[h.Succs[0]] {
+			ld.body = h.Succs[0]
+		} else {
+			ld.body = h.Succs[1]
+		}
+		for _, b := range ld.order {
+			if b != h {
+				for _, su := range b.Succs {
+					if !ld.in[su] {
+						ld.simple = false
+					}
+				}
+			}
+			for _, ins := range b.Instrs {
+				switch ins.(type) {
+				case *ssa.Return, *ssa.Panic:
+					ld.simple = false
+				}
+			}
+		}
+		out[h] = ld
+	}
+	// nested loops
+	for _, ld := range out {
+		for _, b := range ld.order[1:] {
+			if inner := out[b]; inner != nil {
+				for _, x := range inner.order[1:] {
+					ld.innerBlock[x] = true
+				}
+			}
+		}
+	}
+	return out
+}
+
 // simplified boolean connectives on condition terms
 // cAnd right-nests conjunctions so that path conditions share structural prefixes.
 func cAnd(a, b *Term) *Term {
@@ -106,6 +186,8 @@ func (ev *Evaluator) Call(fn *ssa.Function, args []Val, free []Val, st *State) V
 		}
 	}
 	order := topoAll(fn)
+	loops := loopDescs(fn, order)
+	unrolled := map[*ssa.BasicBlock]bool{}
 	sweeps := 1
 	if !acyclic(fn) {
 		sweeps = 2
@@ -126,18 +208,35 @@ func (ev *Evaluator) Call(fn *ssa.Function, args []Val, free []Val, st *State) V
 		cond := map[*ssa.BasicBlock]*Term{}
 		econd := map[edge]*Term{}
 		outSt := map[*ssa.BasicBlock]State{}
-		for _, b := range order {
+		// evalBlock interprets one block. hmode 0: ordinary (a loop header is summarised by
+		// recurrence atoms); 1: first iteration of an unrolled loop (forward predecessors only,
+		// no recurrence atoms); 2: a later iteration (the incoming edges, states and phi values
+		// are those handed over in `ui`, captured from the previous iteration's back edges).
+		type unrollIn struct {
+			conds  []*Term
+			states []State
+			phis   map[*ssa.Phi]Val
+			cond   *Term
+		}
+		evalBlock := func(b *ssa.BasicBlock, hmode int, ui *unrollIn) bool {
 			var cur State
 			header := false
 			var inPreds []*ssa.BasicBlock
-			if b == fn.Blocks[0] {
+			if hmode == 2 {
+				cond[b] = ui.cond
+				rel := stripCommon(ui.conds)
+				cur = ui.states[0].clone()
+				for i := 1; i < len(ui.states); i++ {
+					cur = iteState(rel[i], ui.states[i], cur)
+				}
+			} else if b == fn.Blocks[0] {
 				cond[b] = K(1)
 				cur = st.clone()
 			} else {
 				var cs []*Term
 				for _, p := range b.Preds {
 					if isBackEdge(p, b) {
-						header = true
+						header = hmode == 0
 						continue
 					}
 					if ec, ok := econd[edge{p, b}]; ok && !ec.IsZero() {
@@ -146,7 +245,7 @@ func (ev *Evaluator) Call(fn *ssa.Function, args []Val, free []Val, st *State) V
 					}
 				}
 				if len(inPreds) == 0 {
-					continue // unreachable
+					return false // unreachable
 				}
 				c := cs[0]
 				for _, x := range cs[1:] {
@@ -203,36 +302,56 @@ func (ev *Evaluator) Call(fn *ssa.Function, args []Val, free []Val, st *State) V
 				}
 			}
 			ev.curCond = cAnd(outerCond, cond[b])
+			// phis are a parallel assignment
+			newPhi := map[*ssa.Phi]Val{}
+			for _, ins := range b.Instrs {
+				x, ok := ins.(*ssa.Phi)
+				if !ok {
+					break
+				}
+				if hmode == 2 {
+					if v, ok := ui.phis[x]; ok {
+						newPhi[x] = v
+					}
+					continue
+				}
+				if header {
+					name, ok := muName[x]
+					if !ok {
+						nmuGlobal++
+						name = fmt.Sprintf("μ%d", nmuGlobal)
+						muName[x] = name
+					}
+					newPhi[x] = symVal(name, x.Type())
+					continue
+				}
+				var vs []Val
+				var cs []*Term
+				for i, e := range x.Edges {
+					if hmode == 1 && isBackEdge(b.Preds[i], b) {
+						continue
+					}
+					if ec, ok := econd[edge{b.Preds[i], b}]; ok && !ec.IsZero() {
+						vs = append(vs, fr.get(ev, e))
+						cs = append(cs, ec)
+					}
+				}
+				if len(vs) == 0 {
+					continue
+				}
+				rel := stripCommon(cs)
+				v := vs[0]
+				for i := 1; i < len(vs); i++ {
+					v = iteVal(rel[i], vs[i], v)
+				}
+				newPhi[x] = v
+			}
+			for x, v := range newPhi {
+				fr.env[x] = v
+			}
 			for _, ins := range b.Instrs {
 				switch x := ins.(type) {
 				case *ssa.Phi:
-					if header {
-						name, ok := muName[x]
-						if !ok {
-							nmuGlobal++
-							name = fmt.Sprintf("μ%d", nmuGlobal)
-							muName[x] = name
-						}
-						fr.env[x] = symVal(name, x.Type())
-						continue
-					}
-					var vs []Val
-					var cs []*Term
-					for i, e := range x.Edges {
-						if ec, ok := econd[edge{b.Preds[i], b}]; ok && !ec.IsZero() {
-							vs = append(vs, fr.get(ev, e))
-							cs = append(cs, ec)
-						}
-					}
-					if len(vs) == 0 {
-						continue
-					}
-					rel := stripCommon(cs)
-					v := vs[0]
-					for i := 1; i < len(vs); i++ {
-						v = iteVal(rel[i], vs[i], v)
-					}
-					fr.env[x] = v
 				case *ssa.If:
 					c, _ := fr.get(ev, x.Cond).(*Term)
 					if c == nil {
@@ -261,6 +380,155 @@ func (ev *Evaluator) Call(fn *ssa.Function, args []Val, free []Val, st *State) V
 				}
 			}
 			outSt[b] = cur
+			return true
+		}
+
+		// tryUnroll executes a counted loop iteration by iteration while its header condition
+		// folds to a constant. It reports false (leaving every map as it found it) when the loop
+		// is not of that kind; the caller then falls back to the recurrence summary.
+		var tryUnroll func(ld *loopDesc, depth int) bool
+		tryUnroll = func(ld *loopDesc, depth int) bool {
+			if depth > 3 {
+				return false
+			}
+			// snapshot for roll-back
+			envS := make(map[ssa.Value]Val, len(fr.env))
+			for k, v := range fr.env {
+				envS[k] = v
+			}
+			condS := map[*ssa.BasicBlock]*Term{}
+			for k, v := range cond {
+				condS[k] = v
+			}
+			econdS := map[edge]*Term{}
+			for k, v := range econd {
+				econdS[k] = v
+			}
+			outS := map[*ssa.BasicBlock]State{}
+			for k, v := range outSt {
+				outS[k] = v
+			}
+			nev, nret, ctxS, curS := len(ev.Events), len(rets), ev.ctx, ev.curCond
+			rollback := func() bool {
+				fr.env = envS
+				for k := range cond {
+					delete(cond, k)
+				}
+				for k, v := range condS {
+					cond[k] = v
+				}
+				for k := range econd {
+					delete(econd, k)
+				}
+				for k, v := range econdS {
+					econd[k] = v
+				}
+				for k := range outSt {
+					delete(outSt, k)
+				}
+				for k, v := range outS {
+					outSt[k] = v
+				}
+				ev.Events = ev.Events[:nev]
+				rets = rets[:nret]
+				ev.ctx, ev.curCond = ctxS, curS
+				return false
+			}
+			h := ld.header
+			var ui *unrollIn
+			for k := 0; ; k++ {
+				if k > maxUnroll || ev.steps >= ev.maxSteps() {
+					return rollback()
+				}
+				ev.ctx = fmt.Sprintf("%s@%d:%d", ctxS, h.Index, k)
+				mode := 1
+				if k > 0 {
+					mode = 2
+				}
+				if !evalBlock(h, mode, ui) {
+					// the loop is unreachable: nothing to unroll, nothing to summarise
+					ev.ctx = ctxS
+					return true
+				}
+				iff, _ := h.Instrs[len(h.Instrs)-1].(*ssa.If)
+				c, _ := fr.get(ev, iff.Cond).(*Term)
+				if c == nil || !c.IsConst() {
+					return rollback()
+				}
+				enters := (c.C.Sign() != 0) == (h.Succs[0] == ld.body)
+				if !enters {
+					break
+				}
+				for _, b := range ld.order[1:] {
+					if ld.innerBlock[b] {
+						continue // evaluated by its own (inner) loop
+					}
+					if inner := loops[b]; inner != nil {
+						if !inner.simple || !tryUnroll(inner, depth+1) {
+							return rollback()
+						}
+						continue
+					}
+					evalBlock(b, 0, nil)
+				}
+				// hand the back edges over to the next iteration
+				ui = &unrollIn{phis: map[*ssa.Phi]Val{}, cond: cond[h]}
+				var backIdx []int
+				for i, p := range h.Preds {
+					if !isBackEdge(p, h) {
+						continue
+					}
+					if ec, ok := econd[edge{p, h}]; ok && !ec.IsZero() {
+						if _, done := outSt[p]; done {
+							backIdx = append(backIdx, i)
+							ui.conds = append(ui.conds, ec)
+							ui.states = append(ui.states, outSt[p])
+						}
+					}
+				}
+				if len(backIdx) == 0 {
+					return rollback() // the body never comes back: not a counted loop
+				}
+				rel := stripCommon(ui.conds)
+				for _, ins := range h.Instrs {
+					x, ok := ins.(*ssa.Phi)
+					if !ok {
+						break
+					}
+					v := fr.get(ev, x.Edges[backIdx[0]])
+					for j := 1; j < len(backIdx); j++ {
+						v = iteVal(rel[j], fr.get(ev, x.Edges[backIdx[j]]), v)
+					}
+					ui.phis[x] = v
+				}
+				// forget the iteration's edge conditions and block states
+				for _, b := range ld.order {
+					delete(cond, b)
+					delete(outSt, b)
+					for _, su := range b.Succs {
+						delete(econd, edge{b, su})
+					}
+				}
+			}
+			ev.ctx = ctxS
+			unrolled[h] = true
+			return true
+		}
+
+		skip := map[*ssa.BasicBlock]bool{}
+		for _, b := range order {
+			if skip[b] {
+				continue
+			}
+			if ld := loops[b]; ld != nil && ld.simple && ev.unroll {
+				if tryUnroll(ld, 0) {
+					for _, x := range ld.order {
+						skip[x] = true
+					}
+					continue
+				}
+			}
+			evalBlock(b, 0, nil)
 		}
 		// loop summaries
 		if sweeps == 2 {
@@ -276,7 +544,7 @@ func (ev *Evaluator) Call(fn *ssa.Function, args []Val, free []Val, st *State) V
 						fwdPreds = append(fwdPreds, p)
 					}
 				}
-				if len(backPreds) == 0 || len(fwdPreds) == 0 {
+				if len(backPreds) == 0 || len(fwdPreds) == 0 || unrolled[b] {
 					continue
 				}
 				mergeStates := func(ps []*ssa.BasicBlock) State {
